@@ -356,6 +356,19 @@ class KInterp:
                 and len(s.target.elts) == 2 and all(isinstance(e, ast.Name) for e in s.target.elts):
             lv = s.target.elts[0].id
             extra[s.target.elts[1].id] = self.eval(it.args[0], st)
+        elif isinstance(it, ast.Call) and U(it.func) == "enumerate" and isinstance(s.target, ast.Tuple) \
+                and len(s.target.elts) == 2 and isinstance(s.target.elts[0], ast.Name) and isinstance(s.target.elts[1], ast.Tuple) \
+                and isinstance(it.args[0], ast.Call) and U(it.args[0].func) == "zip" \
+                and len(it.args[0].args) == len(s.target.elts[1].elts) and all(isinstance(e, ast.Name) for e in s.target.elts[1].elts):
+            # for i, (a, b) in enumerate(zip(xs, ys)): element-wise, a is xs[i] and b is ys[i]
+            lv = s.target.elts[0].id
+            for nm, arr in zip(s.target.elts[1].elts, it.args[0].args):
+                extra[nm.id] = self.eval(arr, st)
+        elif isinstance(it, ast.Call) and U(it.func) == "zip" and isinstance(s.target, ast.Tuple) \
+                and len(it.args) == len(s.target.elts) and all(isinstance(e, ast.Name) for e in s.target.elts):
+            lv = "<zip-index>"
+            for nm, arr in zip(s.target.elts, it.args):
+                extra[nm.id] = self.eval(arr, st)
         else:
             seq = self.eval(it, st)
             if isinstance(seq, PyVal) and isinstance(seq.v, (list, tuple)):
@@ -616,6 +629,8 @@ class KInterp:
             r = self.ix.resolve_in(st["fi"], e.id)
             if r and r[0] == "class":
                 return PyVal(r[1])
+            if r and r[0] == "func":
+                return PyVal(r[1])          # a function used as a value (selected by a conditional expression, passed on)
             if r and r[0] == "value":
                 try:
                     v_ = self._lift_const(self.ix.eval_const(r[2], r[1]))
@@ -1360,6 +1375,11 @@ class KInterp:
                 raise Unsupported("np.setdiff1d form %s" % U(e))
         # in-package function: inline
         tg = self.ix.resolve_call(st["fi"], e) if not isinstance(e.func, ast.Attribute) or isinstance(e.func.value, ast.Name) else []
+        if isinstance(e.func, ast.Name) and e.func.id in st["env"]:
+            from .index import FunctionInfo as _FI
+            fv = st["env"][e.func.id]
+            if isinstance(fv, PyVal) and isinstance(fv.v, _FI):
+                tg = [fv.v]                 # a local name bound to a repository function
         if len(tg) == 1 and self.inline and tg[0].name in self.call_handlers:
             return self.call_handlers[tg[0].name](self, e, st)
         if len(tg) == 1 and self.inline:
